@@ -284,11 +284,15 @@ def _apply(f: ast.expr, args: List[ast.expr]) -> ast.expr:
     return ast.Call(func=copy.deepcopy(f), args=[copy.deepcopy(a) for a in args], keywords=[])
 
 
+_OP_ALIASES: Dict[str, str] = {}
+
+
 def _operator_object(e: ast.AST) -> Optional[ast.Lambda]:
     """attrgetter('a') / attrgetter('a', 'b') / itemgetter(0) / methodcaller('m', x..) as the lambda it stands for."""
     if not (isinstance(e, ast.Call) and not any(isinstance(a, ast.Starred) for a in e.args)):
         return None
     nm = e.func.attr if isinstance(e.func, ast.Attribute) and isinstance(e.func.value, ast.Name) and e.func.value.id == "operator" else (e.func.id if isinstance(e.func, ast.Name) else None)
+    nm = _OP_ALIASES.get(nm, nm)
     v = ast.Name(id="_ox", ctx=ast.Load())
     largs = ast.arguments(posonlyargs=[], args=[ast.arg(arg="_ox")], vararg=None, kwonlyargs=[], kw_defaults=[], kwarg=None, defaults=[])
     if nm == "attrgetter" and e.args and not e.keywords and all(isinstance(a, ast.Constant) and isinstance(a.value, str) for a in e.args):
@@ -317,9 +321,11 @@ def function_values(tree: ast.Module) -> None:
     call (and can be inlined) and the element expression is visible to the rules."""
     counter = [0]
     imported_ops: Set[str] = set()
+    _OP_ALIASES.clear()
     for n in ast.walk(tree):
         if isinstance(n, ast.ImportFrom) and n.module == "operator":
             imported_ops |= {a.asname or a.name for a in n.names if a.name in ("attrgetter", "itemgetter", "methodcaller")}
+            _OP_ALIASES.update({a.asname: a.name for a in n.names if a.asname and a.name in ("attrgetter", "itemgetter", "methodcaller")})
     # private module-level / class-level / local names bound once to an operator object: _BY_POS = attrgetter("player", "beat") -> its lambda
     opnames: Dict[str, ast.Lambda] = {}
     stores = _stored_names(tree)
@@ -400,6 +406,15 @@ def function_values(tree: ast.Module) -> None:
                 call = _apply(fv, [ast.Name(id=v, ctx=ast.Load()) for v in vs])
                 tgt = ast.Tuple(elts=[ast.Name(id=v, ctx=ast.Store()) for v in vs], ctx=ast.Store())
                 return ast.copy_location(ast.GeneratorExp(elt=call, generators=[ast.comprehension(target=tgt, iter=it, ifs=[], is_async=0)]), n)
+            return n
+
+        def visit_Tuple(self, n: ast.Tuple):
+            self.generic_visit(n)
+            if isinstance(n.ctx, ast.Load):
+                for i_, e_ in enumerate(n.elts):
+                    lam_ = _operator_object(e_)
+                    if lam_ is not None and (isinstance(e_.func, ast.Attribute) or e_.func.id in imported_ops):
+                        n.elts[i_] = ast.copy_location(lam_, e_)
             return n
 
         def visit_keyword(self, k: ast.keyword):
@@ -1805,4 +1820,57 @@ def fuse_comp_temps(tree: ast.Module) -> None:
                     del body[i - 1]
                     i -= 1
         fuse_genexps(fn)
+    ast.fix_missing_locations(tree)
+
+
+
+def beta_reduce(tree: ast.Module) -> None:
+    """(lambda x, y: BODY)(a, b) with plain names / constants / dotted names as arguments: BODY with the parameters replaced."""
+    class T(ast.NodeTransformer):
+        def visit_Call(self, n: ast.Call):
+            self.generic_visit(n)
+            f = n.func
+            if isinstance(f, ast.Lambda) and not n.keywords and not (f.args.vararg or f.args.kwarg or f.args.kwonlyargs or f.args.defaults) and len(f.args.args) == len(n.args) \
+                    and all(isinstance(a, (ast.Name, ast.Constant)) or (isinstance(a, ast.Attribute) and isinstance(a.value, ast.Name)) for a in n.args):
+                m = {p.arg: a for p, a in zip(f.args.args, n.args)}
+
+                class S(ast.NodeTransformer):
+                    def visit_Name(self, x: ast.Name):
+                        if isinstance(x.ctx, ast.Load) and x.id in m:
+                            return copy.deepcopy(m[x.id])
+                        return x
+
+                    def visit_Lambda(self, x: ast.Lambda):
+                        return x
+                return ast.copy_location(S().visit(copy.deepcopy(f.body)), n)
+            return n
+    T().visit(tree)
+    ast.fix_missing_locations(tree)
+
+
+def search_loop_to_any(tree: ast.Module) -> None:
+    """for x in IT: if C: break  /  else: E        ->        if not any(C for x in IT): E
+    (the loop does nothing but look for an element satisfying C; x is not read afterwards).  Without an else clause the loop is dropped only
+    when C is read-only - otherwise it stays."""
+    for fn in [n for n in ast.walk(tree) if isinstance(n, (ast.FunctionDef, ast.AsyncFunctionDef))]:
+        for holder in ast.walk(fn):
+            for fld in ("body", "orelse", "finalbody"):
+                body = getattr(holder, fld, None)
+                if not (isinstance(body, list) and body and isinstance(body[0], ast.stmt)):
+                    continue
+                for i, st in enumerate(body):
+                    if not (isinstance(st, ast.For) and st.orelse and len(st.body) == 1 and isinstance(st.body[0], ast.If) and not st.body[0].orelse
+                            and len(st.body[0].body) == 1 and isinstance(st.body[0].body[0], ast.Break)):
+                        continue
+                    names = {n.id for n in ast.walk(st.target) if isinstance(n, ast.Name)}
+                    if any(isinstance(n, ast.Name) and n.id in names for x in body[i + 1:] for n in ast.walk(x)) or any(isinstance(n, ast.Name) and n.id in names for x in st.orelse for n in ast.walk(x)):
+                        continue
+                    ge = ast.GeneratorExp(elt=st.body[0].test, generators=[ast.comprehension(target=st.target, iter=st.iter, ifs=[], is_async=0)])
+                    test = ast.UnaryOp(op=ast.Not(), operand=ast.Call(func=ast.Name(id="any", ctx=ast.Load()), args=[ge], keywords=[]))
+                    new = ast.If(test=test, body=st.orelse, orelse=[])
+                    ast.copy_location(new, st)
+                    for x in ast.walk(new):
+                        if isinstance(x, (ast.stmt, ast.expr)) and not hasattr(x, "lineno"):
+                            ast.copy_location(x, st)
+                    body[i] = new
     ast.fix_missing_locations(tree)
